@@ -273,6 +273,7 @@ def corr_binary(ck: Ck) -> None:
     cases = []
     corpus = [(s, m) for _, s, ms in CORPUS for m in ms if m['fmt'] == 'binary']
     for i in range(n):
+        U.arm()        # a limit per case: an implementation that does not return ends the stage, not the check
         if i < len(corpus):
             spec, mode = corpus[i]
         else:
@@ -326,6 +327,7 @@ def corr_binary(ck: Ck) -> None:
         ck.hist('corr_binary_version', mode['version'])
         if len(c['elems']) > 1 or any(e['attrs'] for e in c['elems']):
             ck.seen(('cb', mode['version'], mode['unicode'], repr(c['elems'])))
+    U.disarm()
     bad = []
     for lo in range(0, len(cases), 120):
         part = cases[lo:lo + 120]
@@ -464,6 +466,7 @@ def corr_scalar(ck: Ck) -> None:
     n = ck.budget(330, 4400)
     cases = []
     for i in range(n):
+        U.arm()        # a limit per case: an implementation that does not return ends the stage, not the check
         typ = SCALAR_TYPES[i % len(SCALAR_TYPES)]
         vt = dmx.ValueType[typ]
         v = gen_scalar_value(ck.rng, typ)
@@ -485,6 +488,7 @@ def corr_scalar(ck: Ck) -> None:
         ck.count('corr_scalar_cases')
         ck.hist('corr_scalar_type', typ)
         ck.seen(('sc', typ, repr(v)))
+    U.disarm()
     bad = []
     for lo in range(0, len(cases), 440):
         vals = ck.coq_eval(IMPORTS_SC, [f'bad_idx chks 0 {coq_list(x[2] for x in cases[lo:lo + 440])}'], name='scalar', preamble=PRE_SC)
@@ -699,6 +703,7 @@ def corr_kv2(ck: Ck) -> None:
     cases = []
     corpus = [s for _, s, ms in CORPUS if any(m['fmt'] == 'kv2' for m in ms)]
     for i in range(n):
+        U.arm()        # a limit per case: an implementation that does not return ends the stage, not the check
         uni = ck.rng.choice(['ascii', 'format', 'silent'])
         spec = corpus[i] if i < len(corpus) else U.gen_spec(ck.rng, uni != 'ascii')
         elems = U.build(spec)
@@ -733,6 +738,7 @@ def corr_kv2(ck: Ck) -> None:
         ck.hist('corr_kv2_text_chars', len(text) // 500 * 500)
         if len(d) > 1 or d[0][3]:
             ck.seen(('k2', uni, repr(d)))
+    U.disarm()
     bad = []
     for lo in range(0, len(cases), 45):
         vals = ck.coq_eval(IMPORTS_KV2, [f'bad_idx chk2 0 {coq_list(x[2] for x in cases[lo:lo + 45])}'], name='kv2', preamble=PRE_KV2)
@@ -888,6 +894,7 @@ def corr_kv2_nested(ck: Ck) -> None:
     cases = []
     corpus = [s for _, s, ms in CORPUS if any(m['fmt'] == 'kv2' for m in ms)]
     for i in range(n):
+        U.arm()        # a limit per case: an implementation that does not return ends the stage, not the check
         uni = ck.rng.choice(['ascii', 'format', 'silent'])
         cull = ck.rng.random() < 0.35
         spec = corpus[i] if i < len(corpus) else U.gen_spec(ck.rng, uni != 'ascii')
@@ -929,6 +936,7 @@ def corr_kv2_nested(ck: Ck) -> None:
         ck.hist('corr_kv2n_has_depth3', bool(depth))
         if len(d) > 1 or d[0][3]:
             ck.seen(('k2n', uni, cull, repr(d)))
+    U.disarm()
     bad = []
     for lo in range(0, len(cases), 45):
         vals = ck.coq_eval(IMPORTS_KV2N, [f'bad_idx chk3 0 {coq_list(x[2] for x in cases[lo:lo + 45])}'], name='kv2n', preamble=PRE_KV2N)
@@ -1022,6 +1030,7 @@ def corr_value_text(ck: Ck) -> None:
     cases = []
     S = dmx.ValueType.STRING
     for i in range(n):
+        U.arm()        # a limit per case: an implementation that does not return ends the stage, not the check
         k = i % 9
         if k == 7:
             bs = bytes(ck.rng.choice([0, 255, 10, 171, ck.rng.randrange(256)]) for _ in range(ck.rng.choice([0, 1, 2, 5])))
@@ -1096,6 +1105,7 @@ def corr_value_text(ck: Ck) -> None:
         ck.count('corr_value_text_cases')
         ck.hist('corr_value_text_kind', cases[-1][0])
         ck.seen(('vt', cases[-1][0], repr(cases[-1][1])))
+    U.disarm()
     bad = []
     for lo in range(0, len(cases), 600):
         vals = ck.coq_eval(IMPORTS_VT, [f'bad_idx chkv 0 {coq_list(x[2] for x in cases[lo:lo + 600])}'], name='valtext', preamble=PRE_VT)
@@ -1212,6 +1222,7 @@ def corr_kv1(ck: Ck) -> None:
     with warnings.catch_warnings():
         warnings.simplefilter('ignore')
         for _ in range(n):
+            U.arm()        # a limit per case: an implementation that does not return ends the stage, not the check
             t = gen_kv(ck.rng, 3, False, nested_roots=True)
             e = dmx.Element.from_kv1(build_kv(t))
             try:
@@ -1223,6 +1234,7 @@ def corr_kv1(ck: Ck) -> None:
             ck.count('corr_kv1_cases')
             if t[0] == 'B' and t[2]:
                 ck.seen(('k1', repr(t)))
+    U.disarm()
     bad = []
     for lo in range(0, len(cases), 300):
         vals = ck.coq_eval(IMPORTS, [f'bad_idx chk1 0 {coq_list(x[1] for x in cases[lo:lo + 300])}'], name='kv1', preamble=PRE_KV1)
@@ -1305,7 +1317,7 @@ def search_kv1(ck: Ck) -> None:
             ck.seen(('kv1', via, repr(t)))
         try:
             p = kv1_roundtrip(t, via)
-        except Exception as e:
+        except (Exception, U.HangTimeout) as e:
             p = f'{type(e).__name__}: {e}'
         if p is None:
             continue
@@ -1320,7 +1332,7 @@ def search_kv1(ck: Ck) -> None:
         def pred(x, via=via):
             try:
                 return kv1_roundtrip(x, via) is not None
-            except Exception:
+            except (Exception, U.HangTimeout):
                 return True
         cur, progress = t, True
         while progress:
@@ -1627,19 +1639,19 @@ def run(ck: Ck) -> None:
     import time as _time
     t0 = [_time.time()]
     stage_s: dict = {}
+    stage_failed: list = []
 
     def stage(name: str, fn, *a) -> None:
         # a stage that calls into the implementation must not end the check when the implementation raises or hangs where
         # no handler expects it: the stage is a broken tie, the searches below still run and produce the failing input
         try:
-            if name.startswith('corr_') or name == 'runtime':
-                with U.time_limit(900.0):      # quick: 2-10 s each, thorough: up to ~3 min each on the loaded machine
-                    fn(*a)
-            else:
-                fn(*a)
-        except Exception as e:
+            fn(*a)
+        except (Exception, U.HangTimeout) as e:
+            stage_failed.append(name)
             ck.obligation(f'stage:{name}', False, f'the stage could not be completed: {type(e).__name__}: {str(e)[:300]}')
             ck.tie_broken.append(f'stage {name} raised {type(e).__name__}')
+        finally:
+            U.disarm()      # the per-case limits of the correspondence loops (U.arm) end with the stage
         t1 = _time.time()
         stage_s[name] = round(t1 - t0[0], 1)
         t0[0] = t1
@@ -1662,6 +1674,13 @@ def run(ck: Ck) -> None:
     for ob, (pfx, part) in EXPLAIN.items():
         if any(k.startswith(pfx) and part in k for k in keys):
             ck.explain(ob)
+    # a stage that could not be completed (the implementation raised or did not return inside it) is explained by a
+    # failing input of the format the stage exercises
+    stage_fmt = {'corr_binary': ('binary', 'kv2'), 'corr_scalar': ('binary',), 'corr_kv2': ('kv2',), 'corr_kv2_nested': ('kv2',),
+                 'corr_keyword_predicate': ('kv2',), 'corr_value_text': ('kv2',), 'corr_kv1': ('kv1-bridge',)}
+    for st, pfxs in stage_fmt.items():
+        if st in stage_failed and any(k.startswith(pfxs) for k in keys):
+            ck.explain(f'stage:{st}')
 
 
 def replay(data: dict) -> int:
@@ -1677,7 +1696,7 @@ def replay(data: dict) -> int:
             return ('L', x[1], x[2]) if x[0] == 'L' else ('B', x[1], [tup(c) for c in x[2]])
         try:
             p = kv1_roundtrip(tup(r['tree']), r.get('via'))
-        except Exception as e:
+        except (Exception, U.HangTimeout) as e:
             p = f'{type(e).__name__}: {e}'
         print('tree:', r['tree'], 'via:', r.get('via'))
         print('result:', p)
